@@ -289,6 +289,8 @@ static const char *prop_of (const Failure *f)
     if (f->kind == F_FAULT_NATIVE && !strncmp (f->sub, "write-", 6)) return "C10";
     if (f->kind == F_CANARY_NATIVE) return "C10";
   }
+  /* native code that faults or never returns where emulation ran to completion has not computed what emulation computes */
+  if (!strcmp (vh_args.mode, "c01") && f->kind == F_FAULT_NATIVE) return "C01";
   return fail_prop[f->kind];
 }
 
@@ -799,7 +801,7 @@ static void compact_with_remap (ProgSpec *ps, RunCfg *cfg)
   for (i = 0; i < n; i++) { param_val[i] = pv[i]; cfg->off[i] = off[i]; cfg->gap[i] = gap[i]; }
 }
 
-static long failures_reported;
+static long failures_reported, other_reported;
 #define MAX_FAILURES_PER_SHARD 150   /* a tree this broken is decided; stop exploring so a slow failure mode cannot stall the shard */
 
 static void shrink_and_report (ProgSpec *ps0, const Tgt *tg, const RunCfg *cfg0, const Failure *f0, long caseidx)
@@ -809,8 +811,10 @@ static void shrink_and_report (ProgSpec *ps0, const Tgt *tg, const RunCfg *cfg0,
   char sig[400]; VhBuf b = { 0 };
   uint64_t saved_params[GEN_MAX_VARS], cparams[GEN_MAX_VARS];
   memcpy (saved_params, param_val, sizeof saved_params);
-  failures_reported++;
-  if (failures_reported > 40) pass = 8;   /* report further failures without shrinking */
+  /* failures of the property being decided count towards the cap; observations that belong to another property are passed on
+   * (unshrunk after the first 40) without ending this property's exploration */
+  if (!strcmp (prop_of (&f), mode_prop)) { failures_reported++; if (failures_reported > 40) pass = 8; }
+  else { other_reported++; if (other_reported > 40) pass = 8; }
   if (!strcmp (f.sub, "hang")) pass = 8;   /* every shrinking step of a hang would cost another watchdog period */
   while (changed && pass++ < 8) {
     changed = 0;
